@@ -35,9 +35,16 @@ pub fn exec(case: &Value) -> Vec<Value> {
     let mut rng = ChaCha8Rng::seed_from_u64(seed);
     occ.shuffle(&mut rng);
     let lines: Vec<String> = occ.chunks(per_line).map(|c| c.join(" ")).collect();
+    // the corpus is spread over `files` input files (contiguous blocks of lines); with `max_lines` > 0 only the first
+    // max_lines lines of EVERY file are read (max_lines_per_file)
+    let nfiles = get_u(case, "files").max(1);
+    let max_lines = get_u(case, "max_lines");
+    let per_file = (lines.len() + nfiles - 1) / nfiles.max(1);
+    let blocks: Vec<Vec<String>> = (0..nfiles).map(|j| lines.iter().skip(j * per_file).take(per_file.max(if lines.is_empty() { 0 } else { 1 })).cloned().collect()).collect();
+    let counted: Vec<String> = blocks.iter().flat_map(|b| b.iter().take(if max_lines > 0 { max_lines } else { usize::MAX }).cloned()).collect();
     // the view of the corpus: whitespace-prefixed words and their counts
     let mut view: BTreeMap<Vec<u8>, usize> = BTreeMap::new();
-    for l in &lines {
+    for l in &counted {
         // what the trainer is asked to count: the line as it is, or its NFKC form when normalisation is requested
         let l = if with_norm { text_utils::unicode::normalize(l, Normalization::NFKC, true) } else { l.clone() };
         for (i, w) in l.split(' ').enumerate() {
@@ -50,13 +57,15 @@ pub fn exec(case: &Value) -> Vec<Value> {
     let _ = std::fs::create_dir_all(&dir);
     let mut out = vec![];
     for threads in case["threads"].as_array().map(|a| a.iter().map(|x| x.as_u64().unwrap() as u8).collect::<Vec<_>>()).unwrap_or(vec![1]) {
-        let inp = dir.join("corpus.txt");
         let outp = dir.join("merges.bin");
         let _ = std::fs::remove_file(&outp);
-        std::fs::write(&inp, lines.iter().map(|l| format!("{l}\n")).collect::<String>()).unwrap();
+        let inps: Vec<std::path::PathBuf> = (0..nfiles).map(|j| dir.join(format!("corpus{j}.txt"))).collect();
+        for (j, p) in inps.iter().enumerate() {
+            std::fs::write(p, blocks[j].iter().map(|l| format!("{l}\n")).collect::<String>()).unwrap();
+        }
         // vocab_size must be a multiple of 64: 320 - 256 - (64 - m) = m merges
         let norm = if with_norm { Some(Normalization::NFKC) } else { None };
-        let r = guard(|| train_bpe(&[&inp], 320, 64 - num_merges.min(64), &outp, None, norm, threads, false));
+        let r = guard(|| train_bpe(&inps, 320, 64 - num_merges.min(64), &outp, if max_lines > 0 { Some(max_lines) } else { None }, norm, threads, false));
         quiet_panics(); // train_bpe installs its own (printing) panic hook
         let mut st = match r {
             Ok(Ok(())) => "ok".to_string(),
@@ -92,8 +101,10 @@ pub fn gen(seed: u64, n: usize) -> Vec<Value> {
             let freqs: Vec<usize> = (0..nw).map(|_| rng.random_range(1..=5)).collect();
             let th = [0, 1, 3][rng.random_range(0..3)];
             let alpha = if rng.random_bool(0.3) { "nfkc" } else { "abcd" };
+            let max_lines = [0, 0, 1, 2, 4][rng.random_range(0..5)];
             json!({"words": words, "freqs": freqs, "num_merges": rng.random_range(0..=24), "per_line": rng.random_range(1..=3),
-                   "seed": rng.random::<u32>(), "threads": [th], "norm": rng.random_bool(0.5), "alpha": alpha})
+                   "seed": rng.random::<u32>(), "threads": [th], "norm": rng.random_bool(0.5), "alpha": alpha,
+                   "files": rng.random_range(1..=3), "max_lines": max_lines})
         })
         .collect()
 }
